@@ -65,12 +65,10 @@ func (w *walker) exprNamed(e ast.Expr, mode, hint string) *aval {
 	case *ast.StarExpr:
 		return w.expr(x.X, "rd")
 	case *ast.BinaryExpr:
-		w.expr(x.X, "rd")
-		w.expr(x.Y, "rd")
-		if al, nv := w.condKnown(x); al {
-			return &aval{known: 1}
-		} else if nv {
-			return &aval{known: -1}
+		vx := w.expr(x.X, "rd")
+		vy := w.expr(x.Y, "rd")
+		if k := w.nilCompare(x.Op, x.Pos(), vx, vy); k != 0 {
+			return &aval{known: k}
 		}
 		return nil
 	case *ast.IndexExpr:
